@@ -209,7 +209,7 @@ def judge_probe(ctx, mode, config, op, m, t, name, v, exp, r, wit, skip_decode=F
                           f"C {t.text()} pad={wit['pad']} {name} [{mode} {config}]: decoded leaves {got} expected {want}", w)
 
 
-GO = False
+GO = True
 
 
 def extra(res):
@@ -232,6 +232,6 @@ if __name__ == "__main__":
         assumptions=["vlib/ref.py is the specification", "big-endian emulation does not judge decodes of signed non-8/16/32/64 widths (sign step reads storage natively)",
                      "Go -O statements evaluated by vlib/sut_gotext.py when enabled"],
         required_counters=["py_probes", "copybits_calls", "c_probes:std:gcc-O0-sep", "c_probes:std:gcc-O0-BE", "c_probes:opt-little:gcc-O0-sep",
-                           "c_probes:opt-big:gcc-O0-sep", "be_monitor_positive_control_failures_seen"],
+                           "c_probes:opt-big:gcc-O0-sep", "be_monitor_positive_control_failures_seen", "go_probes"],
         extra_coverage=extra,
     )
